@@ -152,6 +152,35 @@ pub enum InterpolateError {
 ///  - Types should be annotated to ensure type inference does not break
 /// the contract by accident
 unsafe fn cast_unchecked<A, B>(a: A) -> B {
+    #[cfg(ndarray_interp_verif)]
+    verif::check_cast::<A, B>();
     let ptr = &*ManuallyDrop::new(a) as *const A as *const B;
     unsafe { ptr.read() }
+}
+
+/// Verification hooks (only compiled with `--cfg ndarray_interp_verif`).
+///
+/// Checks the contract of [`cast_unchecked`] at run time (source and destination
+/// are the same type) and counts how often the unchecked cast is taken.
+#[cfg(ndarray_interp_verif)]
+pub mod verif {
+    use std::sync::atomic::{AtomicUsize, Ordering};
+
+    static CAST_UNCHECKED_CALLS: AtomicUsize = AtomicUsize::new(0);
+
+    /// number of `cast_unchecked` calls so far
+    pub fn cast_unchecked_calls() -> usize {
+        CAST_UNCHECKED_CALLS.load(Ordering::SeqCst)
+    }
+
+    pub(crate) fn check_cast<A, B>() {
+        CAST_UNCHECKED_CALLS.fetch_add(1, Ordering::SeqCst);
+        assert_eq!(
+            std::any::type_name::<A>(),
+            std::any::type_name::<B>(),
+            "cast_unchecked: source and destination types differ"
+        );
+        assert_eq!(std::mem::size_of::<A>(), std::mem::size_of::<B>());
+        assert_eq!(std::mem::align_of::<A>(), std::mem::align_of::<B>());
+    }
 }
